@@ -75,6 +75,13 @@ def boundary_templates(rng):
     out += ['{if case="1" true="{var:a"}}', '{if case="1" true="{var:a"} false="b"}', '{if case="0" true="t" false="{raw:a"}}', '{if case="1" true="x{math:1+1"}y"}',
             '{if case="1" true="{var:a" false="{var:b"}}', "{if case='1' true='{var:a'}}", '{if case="1" false="{var:a}" true="{var:b"}"}', '{if case="1" true="{svar:a, {var:b"}}"}',
             '<loop set="list" value="v">{if case="1" true="{var:v"}}</loop>', '{if case="1" true="{var:a}{var:b"}}x', '{if case="{var:a"}" true="t"}']
+    # super variables without a usable name (empty, or of 256 / 512 units: the 8-bit length is 0) inside open blocks,
+    # followed by closing braces: nothing may be popped that the tag did not push
+    for nm in ("", "n" * 256, "n" * 512, " "):
+        for body in (",}", ",{var:a}}", ", {var:v}, {raw:a}}", "}", ",}}", ",{math:1+1}}x}"):
+            sv = "{svar:" + nm + body
+            out += ['<if case="1">' + sv + "x}</if>y", '<loop set="list" value="v">' + sv + "{var:v}}</loop>z", '<if case="1"><loop set="list" value="v">' + sv + "}</loop></if>",
+                    '{if case="1" true="' + sv + '" false="f"}', sv, '<if case="0">a<else>' + sv + "}</if>"]
     # every proper prefix of complete templates of each tag kind (truncation at every offset)
     full = ['x{var:a[0][k]}y', '{raw:list[1]}', '{math:1 + {var:v} * (2 - 1) >= 3 && 1}', '{svar:a, {var:v}, {raw:a}, {math:1+1}}',
             '{if case="{var:v} == 1" true="T{var:a}" false="F{raw:a}"}', "{if case='1' true='y'}",
